@@ -175,7 +175,33 @@ class Pattern:
             if str(op) == "AT":
                 raise Unsupported("inner anchor")
         self.body = body
+        self._markers_alike(body)
         self.items = [self._item(n) for n in body]
+
+    def _markers_alike(self, nodes):
+        """Checked every run (was an assumption): no literal, negated literal or class of the pattern
+        separates the marker characters from each other, so a marker stands for an arbitrary text
+        character of the surrounding class.  A pattern that does is outside the encoding."""
+        marks = [ord(m) for m in self.exclude]
+        if not marks:
+            return
+        for op, av in nodes:
+            name = str(op)
+            if name in ("LITERAL", "NOT_LITERAL"):
+                if av in marks:
+                    raise Unsupported("pattern names a private-use marker character")
+            elif name == "IN":
+                rs = class_ranges(av)
+                inside = {any(lo <= m <= hi for lo, hi in rs) for m in marks}
+                if len(inside) != 1:
+                    raise Unsupported("a character class separates the private-use marker characters")
+            elif name in ("MAX_REPEAT", "MIN_REPEAT"):
+                self._markers_alike(av[2])
+            elif name == "SUBPATTERN":
+                self._markers_alike(av[3])
+            elif name == "BRANCH":
+                for b in av[1]:
+                    self._markers_alike(b)
 
     # ---- translation
     def node(self, op, av, ins=None):
